@@ -21,6 +21,16 @@ NOTES = {
  'C15-3': 'first missed: needed a foreign key that references a unique non-primary key; the relational reference semantics, the verification schema and the C04 proofs were generalised to natural keys (RelKind.toOne fk key, keysOk) - which exposed the genuine Django defect D39 (fix 32ff21e)',
  'C16-4': 'first missed: handlers attached after the class was used (instance / class / reverse order) added as sequences',
  'C18-4': 'first caught only through the tie: each built-in now gets a literal, a field and a computed term of every kind; Spec.Types gained the numeric-promotion rows round/floor/ceiling(int)',
+ 'C01-5': 'first crashed the T-gen translator (the refactor removed the table it extracts): a translator failure is now a broken tie followed by the failing-input search, which finds the input',
+ 'C03-5': 'first missed: strings a URL / HTML decoder would rewrite (%41, %25, a%20b, a+b, &amp;) and their decodings as row values added',
+ 'C08-5': 'first caught only through the tie: literal pairs that BOTH need LIKE escaping but hold different metacharacters (50%-50 vs 50%/50) added',
+ 'C09-5': 'first missed: LIKE patterns holding a wildcard AND a quote / backslash added',
+ 'C10-5': 'first caught only through the tie: corpus filters are parsed in other letter cases first, and the corpus parsed after the whole run is compared with each filter in a fresh process',
+ 'C11-5': 'first missed: named parameters whose names are not in ascending order added',
+ 'C12-6': 'first missed: field names that are attributes of the lookup objects (items, values, keys, get, registry, metadata ...) judged on Core and ORM - which exposed the genuine ORM defect D40 (fix 71c633b); the seed was re-made on the fixed tree (Core half only)',
+ 'C13-5': 'first missed: lambda range variables with a namespace added to AstGen and the text corpus',
+ 'C15-4': 'first missed: pre-joined Core statements whose FROM clause is anchored at another table added as bases',
+ 'C20-5': 'first missed: probes whose AST could depend on the hash seed (in-lists with repeats, many named parameters) added to the cross-process digests',
  'C20-4': 'first missed: accumulation histories (40-120 repetitions of one input, nine kinds that leave a parenthesis open) and extreme single inputs added',
 }
 
@@ -31,12 +41,12 @@ def main():
     n = len(res); caught = sum(1 for rc, v in res.values() if rc == '1'); inp = sum(1 for rc, v in res.values() if rc == '1' and 'no-failing' not in v)
     out = ["### 0.5 Seeded changes and which checks catch them", "",
     "Every seeded change below compiles, leaves the pinned suite at 648 passed / 10 xfailed / 4 errors, and was confirmed in a scratch worktree (its own `demo.py` passes on HEAD and fails with the patch;",
-    "`harness/confirm_seed.sh`). They were written in four rounds by fresh sub-agents that saw only the property text, a scratch worktree of /repo and (from round 2 on) one-line summaries of the",
+    "`harness/confirm_seed.sh`). They were written in five rounds by fresh sub-agents that saw only the property text, a scratch worktree of /repo and (from round 2 on) one-line summaries of the",
     "earlier seeds for the same property so as to differ in mechanism - nothing from /verif. `harness/seed_matrix.sh` applies each in an isolated scratch worktree, runs the quick check of its",
     f"property in a scratch copy of /verif and writes `seeded/RESULTS.tsv`: {caught} of {n} are reported, {inp} with a failing input. Where a change was first missed (or caught only through a broken",
     "tie), the generator or the judge was strengthened (last column, regenerated by `harness/mkseedtable.py`) - the properties and the pass criteria were not touched. First-time detection per round",
     "(own check, before any strengthening): rounds 1-2 (47 seeds): the first misses are the ones marked in the last column (C03-3, C08-3, C12-2, C12-3, C12-4); round 3 (11 seeds): 7 with a failing input,",
-    "1 through the tie only, 3 missed; round 4 (20 seeds): 8 with a failing input, 3 through the tie only, 9 missed - rounds 3 and 4 were asked to avoid every mechanism used before, and each miss named a",
+    "1 through the tie only, 3 missed; round 4 (20 seeds): 8 with a failing input, 3 through the tie only, 9 missed; round 5 (20 seeds): 10 with a failing input, 2 through the tie only, 7 missed, 1 crashed the translator - rounds 3 to 5 were asked to avoid every mechanism used before, and each miss named a",
     "blind spot of a GENERATOR or of a judge's scope (literal spellings, type-confusable contents, sequences on one instance, accumulation, an over-broad refusal rule, a schema feature), never of a theorem.", "",
     "| seed | file(s) | what it changes | caught by | note |", "|---|---|---|---|---|"]
     for d in sorted(glob.glob('/verif/seeded/*/')):
